@@ -364,7 +364,7 @@ var _ = report.New
 // ruleAmountStringUntouched (C15): what reaches StringToAmount is the request text, at most trimmed.
 func ruleAmountStringUntouched(c *report.Ctx) {
 	p := c.P
-	c.Rule("amount-string-untouched", "the string handed to StringToAmount is the caller's text (a parameter, a request field or a map value), at most passed through strings.Trim*: no numeric re-rendering (big.Rat, float, Sprintf) sits in front of the parser, whose job is to reject everything that is not a plain decimal", 2)
+	c.Rule("amount-string-untouched", "the string handed to StringToAmount — directly or through a wrapper that forwards its parameter (checkParseAmount, the CLI's stringToAmount) — is the caller's text (a parameter, a request field or a map value), at most passed through strings.Trim*: no re-rendering (big.Rat, float, Sprintf, Fields+Join) sits in front of the parser, whose job is to reject everything that is not a plain decimal", 10)
 	sta := fn(c, pkgAPI, "", "StringToAmount")
 	if sta == nil {
 		return
@@ -379,14 +379,6 @@ func ruleAmountStringUntouched(c *report.Ctx) {
 			return true, ""
 		case *ssa.UnOp:
 			return true, "" // field / element load
-		case *ssa.Extract:
-			if _, isNext := x.Tuple.(*ssa.Next); isNext {
-				return true, ""
-			}
-			if _, isLk := x.Tuple.(*ssa.Lookup); isLk {
-				return true, ""
-			}
-			return okSrc(x.Tuple, depth+1)
 		case *ssa.Phi:
 			for _, e := range x.Edges {
 				if ok, why := okSrc(e, depth+1); !ok {
@@ -399,18 +391,95 @@ func ruleAmountStringUntouched(c *report.Ctx) {
 				return okSrc(x.Call.Args[0], depth+1) // removes characters at the ends only (blanks, a unit suffix): the parser still sees the caller's digits
 			}
 			return false, p.Desc(v)
+		case *ssa.Extract:
+			// a module function that hands back text it was given or looked up (getPrice: a map value)
+			if call, isCall := x.Tuple.(*ssa.Call); isCall {
+				if cal := call.Call.StaticCallee(); cal != nil && an.FuncPkg(cal) != nil && strings.HasPrefix(an.FuncPkg(cal).Path(), pkgMain) && len(cal.Blocks) > 0 {
+					for _, b := range cal.Blocks {
+						if r, isRet := b.Instrs[len(b.Instrs)-1].(*ssa.Return); isRet && x.Index < len(r.Results) {
+							if ok, why := okSrc(r.Results[x.Index], depth+1); !ok {
+								return false, why
+							}
+						}
+					}
+					return true, ""
+				}
+			}
+			if _, isNext := x.Tuple.(*ssa.Next); isNext {
+				return true, ""
+			}
+			if _, isLk := x.Tuple.(*ssa.Lookup); isLk {
+				return true, ""
+			}
+			return okSrc(x.Tuple, depth+1)
 		}
 		return false, p.Desc(v)
 	}
-	for _, f := range p.ModFuncs {
-		for i, s := range calls(f, sta) {
-			key := siteKey(f, "StringToAmount-arg", i+1)
-			if ok, why := okSrc(an.CallOf(s).Args[0], 0); ok {
-				c.OK(key, "request text (trimmed at most)", posOf(c, s))
-			} else {
-				c.Fail(key, "the text parsed as an amount is "+why+", a re-rendering of the request string: forms the parser must reject (exponents, signs, separators, excess precision) are rewritten into plain decimals and accepted, some with a rounded value", posOf(c, s))
+	// the parser and its wrappers: a module function that hands one of its own string parameters (trimmed at most) to a
+	// parser is itself a parser — the obligation moves to its call sites (checkParseAmount, the CLI's stringToAmount)
+	parsers := map[*ssa.Function]int{sta: 0}
+	var paramOf func(v ssa.Value, depth int) *ssa.Parameter
+	paramOf = func(v ssa.Value, depth int) *ssa.Parameter {
+		if depth > 6 {
+			return nil
+		}
+		switch x := v.(type) {
+		case *ssa.Parameter:
+			return x
+		case *ssa.Call:
+			if cal := x.Call.StaticCallee(); cal != nil && strings.HasPrefix(an.CanonKeyOf(cal), "strings.Trim") {
+				return paramOf(x.Call.Args[0], depth+1)
 			}
 		}
+		return nil
+	}
+	for changed := true; changed; {
+		changed = false
+		for _, f := range p.ModFuncs {
+			if _, is := parsers[f]; is || f.Parent() != nil {
+				continue
+			}
+			an.Instrs(f, func(in ssa.Instruction) {
+				cc := an.CallOf(in)
+				if cc == nil || cc.StaticCallee() == nil {
+					return
+				}
+				idx, is := parsers[cc.StaticCallee()]
+				if !is || idx >= len(cc.Args) {
+					return
+				}
+				if par := paramOf(cc.Args[idx], 0); par != nil {
+					for i, fp := range f.Params {
+						if fp == par {
+							if _, had := parsers[f]; !had {
+								parsers[f] = i
+								changed = true
+							}
+						}
+					}
+				}
+			})
+		}
+	}
+	for _, f := range p.ModFuncs {
+		n := 0
+		an.Instrs(f, func(in ssa.Instruction) {
+			cc := an.CallOf(in)
+			if cc == nil || cc.StaticCallee() == nil {
+				return
+			}
+			idx, is := parsers[cc.StaticCallee()]
+			if !is || idx >= len(cc.Args) {
+				return
+			}
+			n++
+			key := siteKey(f, nm(cc.StaticCallee())+"-arg", n)
+			if ok, why := okSrc(cc.Args[idx], 0); ok {
+				c.OK(key, "request text (trimmed at most)", posOf(c, in))
+			} else {
+				c.Fail(key, "the text parsed as an amount is "+why+", a re-rendering of the request string: forms the parser must reject (exponents, signs, separators, inner blanks, excess precision) are rewritten into plain decimals and accepted, some with another value", posOf(c, in))
+			}
+		})
 	}
 }
 
